@@ -181,11 +181,14 @@ PROPS["C10"]["verus"]["serial"] = ["PropertyValue::encoded_size_including_paddin
 PROPS["C15"] = {
     "level": "proof",
     "verus": {"serial": ["Table::write_rows", "StringPool::write_pool", "StringPool::write_data", "PropertySet::write",
-                         "PropertyValue::write", "ColumnType::write_value", "StringRef::write"]},
+                         "PropertyValue::write", "ColumnType::write_value", "StringRef::write", "SummaryInfo::write"],
+              "finish": ["FinishImpl::finish", "StringPool::is_modified", "StringPool::mark_unmodified"]},
     "assumptions": [
         "the writer is modelled by VSink (prelude/sink.rs): bytes accepted vs bytes known committed; only a successful flush() commits; any call may fail -- this is what the documented Write contract lets generic code assume about cfb::Stream, whose Drop discards the result of its final flush",
-        "decided: each of the four serializers (write_rows, write_pool, write_data, PropertySet::write) returns Ok only after a successful flush that follows its last write, and propagates every writer error it sees",
-        "NOT covered: FinishImpl::finish / Package::flush / into_inner propagation, user-held StreamWriters, read/seek faults, the cfb container itself",
+        "decided: each of the four serializers (write_rows, write_pool, write_data, PropertySet::write) and the forwarder SummaryInfo::write returns Ok only after a successful flush that follows its last write, and propagates every writer error it sees",
+        "decided (group finish): FinishImpl::finish on the model container VComp/VStream (prelude/comp.rs, rule X3c): it returns Ok only when no part is left marked modified, and a modified mark is cleared -- on ANY return path -- only together with a completed write of that part: the stream was handed to a serializer that returned Ok, or everything written to it was flushed successfully before its scope ended (the implicit drop is made explicit by rule X11). Package is reduced to the four fields finish touches (X10)",
+        "imported into group finish without re-proof: the serializer contracts of group serial ('Ok only after flush'), stated as stream_done(id) -- a timeless predicate over stream ids, sound because an id is handed out once and a stream is consumed once; the size precondition ps_fits of PropertySet::write (section size fits u32) is not re-established by finish",
+        "NOT covered: Package::flush / into_inner / Drop (dyn Finish dispatch, then CompoundFile::flush), the table-stream call sites in query.rs and create_table (write_rows is handed the stream by value there too, but those functions are outside the extractable subset), user-held StreamWriters, read/seek faults, the cfb container itself",
     ],
 }
 
